@@ -317,6 +317,7 @@ def step (_ : Unit) (line : String) : Unit × String :=
         | none => "1"
         | some k => "0:" ++ k
     ((), s!"{mout} | {verdict} | {b01 nt}")
+  | "meta" :: _ => ((), "ok | - | 0")
   | _ => ((), "bad-op | - | 0")
 
 def main : IO UInt32 := runLoop () step
